@@ -184,7 +184,7 @@ func c08Judge(c *Ctx, what, sigBase, theorem, req string, orders []string, cs c0
 	mo, ties, ok := parseModelOrder(reply)
 	cs.Model = reply
 	c.Res.ModelCompared++
-	known := cs.Stream == "spaces"
+	known := cs.Stream == "spaces" && !c08SprintCollisionFix
 	if len(distinct) > 1 {
 		if known && !ok {
 			// without the model the known collision cannot be told from a new defect; the dead
@@ -261,7 +261,7 @@ func c08Nodes(c *Ctx, cs c08Case) {
 		for _, o := range orders {
 			d[o] = true
 		}
-		if len(d) > 1 && cs.Stream != "spaces" {
+		if len(d) > 1 && (cs.Stream != "spaces" || c08SprintCollisionFix) {
 			cs.Orders = orders
 			c.Violation("C08/Nodes.Sort/EntropyOrder/nondeterministic", fmt.Sprintf("Nodes.Sort(EntropyOrder) returns %d different orders for shuffles of the same nodes", len(d)), cs)
 		}
@@ -824,6 +824,9 @@ func c08JudgeJobs(c *Ctx, jobs []*c08Job, runs int) {
 		c.Res.Count("cli/"+key+"/"+j.canon+strings.Join(j.more, "/"), !allFail && len(j.outs[0]) > 0)
 		if diff >= 0 {
 			known, why, worst := c08IsKnownCallTree(j.args, j.canon, j.more, j.outs)
+			if c08CallTreeFixed {
+				known = false // repaired: a difference under -call_tree is an ordinary violation
+			}
 			if j.stream == "call_tree" {
 				c.Res.Hit("call_tree-diff:" + why)
 			}
@@ -1271,7 +1274,7 @@ func c08ReplayCLI(c *Ctx, cs c08Case) {
 }
 
 func runC08(c *Ctx) {
-	c.Res.Rule = "(i) 7 node orders + EdgeMap.Sort + SortTags(flat|cum) on 8 shuffles of tie-rich element sets (weights from {±5,±3,7,0,±1,MinInt64,±MaxInt64}; equal names at different addresses/objects/lines; stream 'spaces' = strings with embedded spaces, kept apart): one order over all shuffles, equal to the model's sortBy(lessOf regenerated descriptors), renderings equal; non-trivial = at least two elements agree on the primary key magnitude or the printable name. (ii) generated valid tie-rich profiles (strategies pm-pairs, same-names, equal-flat-cum, positive, many-edges) × every CLI format (-top -tree -peek -dot -callgrind -tags -traces -raw -proto -topproto + option variants), k fresh processes each, stdout and exit code byte-compared; non-trivial = pprof exits 0 with non-empty output; in-process serialization twice / reparse-reserialize. (iii) local symbolization through the real symbolizer with a scripted ObjTool on unsymbolized profiles with 3-5 mappings (locations interleaved, some functions answered by several binaries, sometimes sparse pre-existing ids): 5 repetitions whose per-mapping SourceLine latency is permuted and GOMAXPROCS varied must serialize byte-identically, and ids/prof.Function order must equal the model's first-come numbering; non-trivial = at least 3 mappings need symbolization."
+	c.Res.Rule = "(i) 7 node orders + EdgeMap.Sort + SortTags(flat|cum) on 8 shuffles of tie-rich element sets (weights from {±5,±3,7,0,±1,MinInt64,±MaxInt64}; equal names at different addresses/objects/lines; stream 'spaces' = strings with embedded spaces, kept apart): one order over all shuffles, equal to the model's sortBy(lessOf regenerated descriptors), renderings equal; non-trivial = at least two elements agree on the primary key magnitude or the printable name. (ii) generated valid tie-rich profiles (strategies pm-pairs, same-names, equal-flat-cum, positive, many-edges) × every CLI format (-top -tree -peek -dot -callgrind -tags -traces -raw -proto -topproto + option variants), k fresh processes each, stdout and exit code byte-compared; non-trivial = pprof exits 0 with non-empty output; in-process serialization twice / reparse-reserialize. (iii) local symbolization through the real symbolizer with a scripted ObjTool on unsymbolized profiles with 3-5 mappings (locations interleaved, some functions answered by several binaries, sometimes sparse pre-existing ids): 5 repetitions whose per-mapping SourceLine latency is permuted and GOMAXPROCS varied must serialize byte-identically, and ids/prof.Function order must equal the model's first-come numbering; non-trivial = at least 3 mappings need symbolization. (iv) web UI payloads (json of rpt.Stacks(), /top /flamegraph /peek /source /disasm /download) of generated profiles computed in 5 fresh processes each (the harness re-executed as C08child) and byte-compared; non-trivial = /top and /flamegraph answer 200 and the stack data is non-empty. (v) 8 goroutines serialising ONE label-rich profile concurrently (Write/WriteUncompressed/Copy), each result compared with a lone serialisation."
 	if c.Replay != "" {
 		var cs c08Case
 		if err := c.LoadReplay(&cs); err != nil {
@@ -1289,6 +1292,25 @@ func runC08(c *Ctx) {
 			c08RenderCheck(c, cs.Nodes[0])
 		case "cli", "serialize":
 			c08ReplayCLI(c, cs)
+		case "web":
+			var wc c08WebCase
+			if err := c.LoadReplay(&wc); err != nil {
+				c.Res.HarnessError = err.Error()
+				return
+			}
+			n := wc.Procs
+			if n < 6 {
+				n = 6
+			}
+			c08WebCompare(c, []string{wc.Profile}, n)
+		case "concurrent-serialize":
+			var cc c08ConcCase
+			if err := c.LoadReplay(&cc); err != nil {
+				c.Res.HarnessError = err.Error()
+				return
+			}
+			cc.Rounds *= 4
+			c08Concurrent(c, cc)
 		case "symbolize":
 			var sc c08SymCase
 			if err := c.LoadReplay(&sc); err != nil {
@@ -1306,6 +1328,8 @@ func runC08(c *Ctx) {
 	r := NewRng(c.Seed)
 	c08Sorts(c, r.Fork(), 300*c.Scale)
 	c08SymStream(c, r.Fork(), 40*c.Scale)
+	c08ConcStream(c, r.Fork(), 6*c.Scale)
+	c08WebStream(c, r.Fork(), 12*c.Scale, 5)
 	runs := 5
 	nprof := 70
 	if c.Scale > 1 {
